@@ -214,6 +214,15 @@ func (eng *Engine) indexConstVars(p *packages.Package) {
 						if o := p.TypesInfo.Defs[n]; o != nil {
 							cands[o] = vs.Values[i]
 						}
+					} else if call, ok := vs.Values[i].(*ast.CallExpr); ok {
+						// sentinel errors: var ErrX = errors.New("...") / fmt.Errorf(...)
+						if sel, ok := call.Fun.(*ast.SelectorExpr); ok {
+							if id, ok := sel.X.(*ast.Ident); ok && ((id.Name == "errors" && sel.Sel.Name == "New") || (id.Name == "fmt" && sel.Sel.Name == "Errorf")) {
+								if o := p.TypesInfo.Defs[n]; o != nil {
+									cands[o] = vs.Values[i]
+								}
+							}
+						}
 					}
 				}
 			}
@@ -705,6 +714,34 @@ func (eng *Engine) verify(c *Contract, prop string) (rep *FuncReport, err error)
 	}
 	ex.recs = nil
 	rep.Returns = len(ex.rets)
+	endPos := fi.Body.Rbrace
+	if c.Frag != "" {
+		endPos = bodyPos
+	}
+	// ghost updates: executed at every return (the function's ghost effect)
+	for _, cl := range c.Clauses {
+		if cl.Kind != "ghostupdate" || !ex.clauseActive(cl) {
+			continue
+		}
+		for _, r := range ex.rets {
+			pre := r.st.clone()
+			sc := ex.ownCtx(ex.entry, endPos)
+			for k, v := range ex.lets {
+				sc.binds[k] = v
+			}
+			if ex.fn.Obj != nil {
+				bindResults(sc, ex.fn.Obj, r.results)
+			}
+			ex.specDepth++
+			for _, item := range splitTopLevel(cl.LetName, ',') {
+				ex.havocSpecLval(r.st, strings.TrimSpace(item), sc)
+			}
+			_ = pre
+			g := ex.eval(r.st, cl.Expr, sc)
+			ex.specDepth--
+			r.st.assume(g.S)
+		}
+	}
 	// postconditions
 	nEns := 0
 	for _, cl := range c.Clauses {
@@ -719,7 +756,7 @@ func (eng *Engine) verify(c *Contract, prop string) (rep *FuncReport, err error)
 		var states []*State
 		var goals []string
 		for _, r := range ex.rets {
-			g := ex.evalClause(r.st, cl, ex.entry, bodyPos, nil, r.results)
+			g := ex.evalClause(r.st, cl, ex.entry, endPos, nil, r.results)
 			states = append(states, r.st)
 			goals = append(goals, g)
 		}
